@@ -159,6 +159,7 @@ def build_fs(args):
         rec(lambda: DecayMode(0.5, pad + ws.join(fl) + pad).daughters)
         rec(lambda: DaughtersDict(list(fl)))
         rec(lambda: DaughtersDict(tuple(fl)))
+        rec(lambda: DaughtersDict(x for x in fl))          # a generator
         m = {}
         for x in fl:
             m[x] = m.get(x, 0) + 1
